@@ -405,6 +405,9 @@ class Viols:
     def validate(self):
         """every repro must exit non-zero on the tree under test (it is what the replay runs)"""
         items = list(self.seen.items())
+        if len(items) > 24:      # a broken tree yields hundreds of violations: validate a sample only
+            self.ctx.extra['repros_not_validated'] = len(items) - 24
+            items = items[:24]
 
         def one(kv):
             try:
@@ -416,6 +419,13 @@ class Viols:
             for key, rc, tail in ex.map(one, items):
                 self.ctx.obligation(f'repro-fails-on-this-tree:{key}', rc != 0, 'harness',
                                     '' if rc != 0 else 'the repro snippet of this violation exits 0')
+
+
+def dict_canon(r):
+    try:
+        return S.canon_unordered(S.canon(r.to_dict())), S.canon(r.to_dict())
+    except Exception as ex:       # noqa: BLE001
+        return ('raised', type(ex).__name__), ('raised', type(ex).__name__)
 
 
 def path_code(path, n, entry):
@@ -733,9 +743,9 @@ def run_biv(ctx, pend, E, case, viol, tmpdir):
             if type(r).__name__ != want:
                 viol.add(f'rt:biv:{case["fam"]}:{case["kind"]}:{path}:class', f'{key}: {path} round trip gives {type(r).__name__}, expected {want}',
                          code + f'assert type(r).__name__ == {want!r}, type(r).__name__\n')
-            if S.canon_unordered(S.canon(r.to_dict())) != dc:
+            if dict_canon(r)[0] != dc:
                 viol.add(f'rt:biv:{case["fam"]}:{case["kind"]}:{path}:to_dict',
-                         f'{key}: to_dict() differs after {n} {path} round trip(s): {S.canon_diff(S.canon(d), S.canon(r.to_dict()))[:2]}',
+                         f'{key}: to_dict() differs after {n} {path} round trip(s): {S.canon_diff(S.canon(d), dict_canon(r)[1])[:2]}',
                          code + 'assert canon_unordered(canon(m.to_dict())) == canon_unordered(canon(r.to_dict())), (m.to_dict(), r.to_dict())\n')
             if n == 2:
                 continue
@@ -1053,9 +1063,9 @@ def run_gm(ctx, pend, E, case, viol, tmpdir):
             if type(r).__name__ != 'GaussianMultivariate' or not r.fitted:
                 viol.add(gm_key(case, path, 'class', m, r), f'{key}: {path} round trip gives {type(r).__name__} fitted={r.fitted}',
                          code + 'assert type(r).__name__ == "GaussianMultivariate" and r.fitted\n')
-            if S.canon_unordered(S.canon(r.to_dict())) != dc:
+            if dict_canon(r)[0] != dc:
                 viol.add(gm_key(case, path, 'to_dict', m, r),
-                         f'{key}: to_dict() differs after {n} {path} round trip(s): {S.canon_diff(S.canon(d), S.canon(r.to_dict()))[:2]}',
+                         f'{key}: to_dict() differs after {n} {path} round trip(s): {S.canon_diff(S.canon(d), dict_canon(r)[1])[:2]}',
                          code + 'assert canon_unordered(canon(m.to_dict())) == canon_unordered(canon(r.to_dict()))\n')
             if n == 2:
                 continue
@@ -1199,9 +1209,9 @@ def run_vine(ctx, pend, E, case, viol, tmpdir):
             if type(r).__name__ != 'VineCopula' or not r.fitted or r.vine_type != m.vine_type:
                 viol.add(f'rt:vine:{case["vt"]}:{path}:class', f'{key}: {path} round trip gives {type(r).__name__} fitted={r.fitted}',
                          code + 'assert type(r).__name__ == "VineCopula" and r.fitted and r.vine_type == m.vine_type\n')
-            if S.canon_unordered(S.canon(r.to_dict())) != dc:
+            if dict_canon(r)[0] != dc:
                 viol.add(f'rt:vine:{case["vt"]}:{path}:to_dict',
-                         f'{key}: to_dict() differs after {n} {path} round trip(s): {S.canon_diff(S.canon(d), S.canon(r.to_dict()))[:2]}',
+                         f'{key}: to_dict() differs after {n} {path} round trip(s): {S.canon_diff(S.canon(d), dict_canon(r)[1])[:2]}',
                          code + 'assert canon_unordered(canon(m.to_dict())) == canon_unordered(canon(r.to_dict()))\n')
             if n == 2:
                 continue
